@@ -42,15 +42,15 @@ RULE = ('stacks of 0..5 middleware components, each implementing any non-empty s
         '{route, route without the method (405), sink, unrouted (404)} x 0..3 stacked before/after hooks (method- and class-level) x an action per call site '
         'from {return, set resp.complete, raise HTTPError, raise HTTPStatus, raise app error with custom handler, with only the default handler, '
         'custom handler re-raising HTTPError / HTTPStatus / a plain exception}; enumerated: every stack of <= 3 (quick) / <= 4 (thorough) components (the largest stacks with 4 of the 8 fault kinds) x every '
-        'single-fault placement, and every stack of <= 1 (quick) / <= 3 (thorough) components x every double placement of {complete, HTTPError, handled app error, handler raising}, '
-        'each x both modes x {route, unrouted} (quick: 3-component stacks routed only) x WSGI+ASGI; plus random stacks with 0..4 faults; plus ASGI lifespan runs over 0..5 components with any subset '
+        'single-fault placement, and every stack of <= 1 (quick) / <= 2 (thorough) components x every double placement of {complete, HTTPError, handled app error, handler raising}, '
+        'each x both modes x {route, unrouted} (the largest stacks routed only) x WSGI+ASGI; plus random stacks with 0..4 faults; plus ASGI lifespan runs over 0..5 components with any subset '
         'of process_startup/process_shutdown and a failing one anywhere. non-trivial = at least one middleware/hook/lifespan call was made; '
         'distinct = distinct (stack kind, configuration, action assignment)')
 PARTIAL = ('Proved in Lean: the response-method discipline in both modes (exactly once each, bottom-up, dependent prefix), top-down/stop-at-first for the request and resource loops, '
            'the hook order and the lifespan order. NOT proved as one theorem: equality of the whole request trace with the documented discipline (routing only if clean, responder only if '
            'nothing completed or raised, req_succeeded at every later process_response) - that part is carried by the correspondence (model = code) plus the independent Python oracle; '
            'error-handler invocations and the "handler raised a plain exception -> propagates" path are oracle-only.')
-JOBS = {'quick': 8, 'thorough': 16}
+JOBS = {'quick': 12, 'thorough': 16}
 
 RAISES = {'http': 403, 'status': 202, 'app_h': 418, 'app_d': 500, 'app_hh': 409, 'app_hs': 299, 'app_he': None}
 CUSTOM = ('app_h', 'app_hh', 'app_hs', 'app_he')        # a custom (generated) error handler runs for these
@@ -371,7 +371,7 @@ def _enumerated(ctx, max_single, max_double):
                 placements += [((s1, f1), (s2, f2)) for s1, s2 in itertools.combinations(sites, 2) for f1 in FAULTS2 for f2 in FAULTS2]
             for pl in placements:
                 for indep in (True, False):
-                    for target in (('route', 'none') if (n < 3 or not ctx.quick) else ('route',)):
+                    for target in (('route', 'none') if n < max(3, max_single) else ('route',)):
                         for stack in ('wsgi', 'asgi'):
                             idx += 1
                             if idx % k != i:
@@ -426,10 +426,10 @@ def _requests(ctx):
     sess = ctx.session('App.__call__ call trace (WSGI+ASGI) = Pl.run', 'pldriver')
     hsess = ctx.session('falcon.before/after wrapped responder = Hk.wrap', 'hkdriver')
     if not ctx.searching:
-        for nf, case in _enumerated(ctx, *((3, 1) if ctx.quick else (4, 3))):
+        for nf, case in _enumerated(ctx, *((3, 1) if ctx.quick else (4, 2))):
             _execute(ctx, sess, hsess, case)
             ctx.count(f'enumerated_{nf}_fault')
-    for j in range(ctx.n(16000, 200000)):
+    for j in range(ctx.n(16000, 150000)):
         case = _random_case(rnd)
         _execute(ctx, sess, hsess, case, via_testing=(j % 16 == 0))
         ctx.count('random')
